@@ -234,7 +234,10 @@ Section BiasCheckers.
                        let better (x y : num * num) :=   (* x at least as good as y *)
                          if xorb (is_cost c) nadir then nleb (score x) (score y) else nleb (score y) (score x) in
                        match mget (c_id c) (a_vals rp) with
-                       | Some v => existsb (fun x => nsame (fst x) v && forallb (fun y => better x y) cands) cands
+                       (* a coefficient of 0 has no weighted comparison (the value of a cost criterion is divided by it): there the
+                          reference value is only required to be the value of one of the anchoring alternatives *)
+                       | Some v => existsb (fun x => nsame (fst x) v
+                                                     && (existsb (fun y => neqb (snd y) nzero) cands || forallb (fun y => better x y) cands)) cands
                        | None => false
                        end) (st_crits before)
         | _ => false
